@@ -42,7 +42,19 @@ def abs_of_impl(r, ids, strip):
     return row, bool(d["wa_template"]["name"] or d["wa_template"]["uuid"] or d["wa_template"]["variables"])
 
 
-def tie(ctx, doc, label):
+def generated(ctx, n):
+    """flows of the C17 generator (joins, cycles into multi-action nodes, routers of every kind, clashing names): the exporter
+    model and the implementation must give the same abstract rows, and the statement must hold on those of the family"""
+    import c17_gen
+
+    stats = {}
+    for _ in range(n):
+        kw = {"shape": "loops"} if ctx.rng.random() < 0.5 else {}
+        doc = c17_gen.gen_container(ctx.rng, stats, nflows=1, **kw)
+        tie(ctx, doc, "c17-generator", flow_file=False)
+
+
+def tie(ctx, doc, label, flow_file=True):
     from rpft.rapidpro.models.containers import RapidProContainer
 
     m = ctx.model
@@ -68,8 +80,8 @@ def tie(ctx, doc, label):
             continue
         where = dict(source=label, flow=doc["flows"][fi].get("name"))
         # (b) flow_of against the harness' reading of the flow file
-        fres = m.ask("(104 3 %s %s)" % (sx, flowutil.flow_sexp(doc["flows"][fi])))
-        count("flow_of_compared")
+        fres = m.ask("(104 3 %s %s)" % (sx, flowutil.flow_sexp(doc["flows"][fi]))) if flow_file else "1"
+        count("flow_of_compared" if flow_file else "flow_of_not_compared(generator outside the loaded model: all_urns, ...)")
         if fres != "1":
             ctx.disagree("flow_of (Exp/Means.v) and the flow file (flowutil.flow_sexp) are not trace-equal",
                          dict(where, container=doc), fres, "1")
